@@ -29,6 +29,9 @@ type C08Session struct {
 	NoiseN int                `json:"noise_n,omitempty"`
 	Stage  int                `json:"stage,omitempty"` // noise: after how many handshake steps
 	Opts   []string           `json:"opts,omitempty"`
+	// Frame: srv-bigframe: the hostile server packs its (otherwise valid) output
+	// into multiplex frames of up to this many bytes (up to the 24-bit limit)
+	Frame int `json:"frame,omitempty"`
 }
 
 type C08Scenario struct {
@@ -150,7 +153,9 @@ func (c08) Generate(seed uint64, tier string, index int) any {
 				s = C08Session{Kind: "noise", Noise: g.R.Uint64() >> 1, NoiseN: 1 + g.R.Intn(3000), Stage: g.R.Intn(5), Module: []string{"ro", "rw"}[g.R.Intn(2)]}
 			}
 		} else {
-			switch g.R.Intn(5) {
+			switch g.R.Intn(6) {
+			case 5:
+				s = C08Session{Kind: "srv-bigframe", Opts: []string{"-r"}, Frame: []int{32768, 65536, 262144, 262145, 300000, 524288, 1 << 20, 4 << 20, 1<<24 - 1}[g.R.Intn(9)]}
 			case 0, 1:
 				s = C08Session{Kind: "srv-pull-mut", Mut: genMutation(g, c08ServerSendFields), Opts: []string{"-r", "-rlogD", "-rc", "-rn", "-a"}[g.R.Intn(5):][:1]}
 			case 2, 3:
@@ -485,6 +490,21 @@ func c08Client(t *testing.T, sc *C08Scenario, job *Job, res *Result) {
 						}
 						return true, nil, 0, 0
 					}})
+				return nil
+			}
+		case "srv-bigframe":
+			big := bytes.Repeat([]byte("0123456789abcdef"), (5<<20)/16)
+			bentries := append(append([]refproto.Entry(nil), entries...), refproto.Entry{Name: "zz_big", Mode: refproto.SIFREG | 0644, Mtime: 1400000000, Size: int64(len(big))})
+			bdata := map[string][]byte{"zz_big": big}
+			for k, v := range data {
+				bdata[k] = v
+			}
+			frame := s.Frame
+			rr.Ref = func(w *refproto.Wire) error {
+				if frame > 0 {
+					w.MaxFrame = frame
+				}
+				refproto.Send(w, refproto.SendOpts{Server: true, Daemon: true, Seed: 5, Entries: bentries, Data: bdata, OptsFromArgs: true, Chunk: 4 << 20})
 				return nil
 			}
 		case "srv-noise":
